@@ -129,6 +129,8 @@ class FsModels:
         spec.classes["os.path"] = {
             "isdir": Model(lambda eng, a, k, n: Sym(self.fs(eng).isdir(fs_path(eng, a[1])), TBool), "os.path.isdir"),
             "exists": Model(lambda eng, a, k, n: Sym(self.fs(eng).exists(fs_path(eng, a[1])), TBool), "os.path.exists"),
+            "isfile": Model(lambda eng, a, k, n: Sym(self.fs(eng).isfile(fs_path(eng, a[1])), TBool), "os.path.isfile"),
+            "islink": Model(lambda eng, a, k, n: Sym(self.fs(eng).kind[fs_path(eng, a[1])] == LINK, TBool), "os.path.islink"),
             "lexists": Model(lambda eng, a, k, n: Sym(self.fs(eng).lexists(fs_path(eng, a[1])), TBool), "os.path.lexists"),
             "join": Model(self.join, "os.path.join"),
             "realpath": Model(lambda eng, a, k, n: Sym(self.fs(eng).resolve(fs_path(eng, a[1])), FSP), "os.path.realpath"),
